@@ -135,6 +135,20 @@ pub fn run_families(rep: &mut Report, families: Vec<SeqSpec>, budget: Duration, 
     let mut outcomes: std::collections::BTreeMap<String, u64> = Default::default();
     let mut observations: std::collections::BTreeMap<String, u64> = Default::default();
     let w = workers();
+    if let Some(req) = crate::report::replay_request("seqx") {
+        let want = req["artefact"]["family"]["family"].as_str().unwrap_or("").to_string();
+        let path: Vec<usize> = req["artefact"]["path"].as_array().map(|a| a.iter().map(|x| x.as_u64().unwrap_or(0) as usize).collect()).unwrap_or_default();
+        for fam in families.iter() {
+            if fam.name == want && req["artefact"]["family"]["depth"].as_u64().map(|d| d as usize >= path.len()).unwrap_or(true) {
+                let r = seqx::replay_path_isolated(&Arc::new(fam.clone()), &path);
+                crate::report::replay_done(r);
+            }
+        }
+        return;
+    }
+    if crate::report::replay_active() {
+        return;
+    }
     let only = std::env::var("RDBCHECK_ONLY").ok();
     for fam in families {
         if let Some(o) = only.as_ref() {
